@@ -1248,6 +1248,34 @@ func runRewindOn(sc *streamScenario, sid string, bs *builtStream, rec *recorder)
 			})
 		}
 	}
+	// (5) the same Demuxer goes on with another input after the Rewind (the reader was given new content of another packet size): under
+	// auto-detection the size is detected again
+	if sc.Run.PSize == -1 && len(bs.pkts) >= 2 {
+		for _, sz := range []int{192, 190} {
+			other := reframe(bs.bytes, sz, rg)
+			rec.ev(M{"ev": "variant", "r": -2, "k": -1, "api": "data", "again": -1})
+			drainData(newDemuxer(bytes.NewReader(other), sc.Run), bound, func() int { return 0 }, func(e M) {
+				e["run"] = -2
+				rec.ev(e)
+			})
+			rd := bytes.NewReader(bs.bytes)
+			dmx := newDemuxer(rd, sc.Run)
+			k := rg.intn(maxK + 1)
+			for c := 0; c < k; c++ {
+				safeCall(func() { dmx.NextData() })
+			}
+			rd.Reset(other)
+			rec.ev(M{"ev": "variant", "r": 3000 + sz, "k": k, "api": "new-content-of-another-packet-size", "again": -1})
+			var n int64
+			var err error
+			pn := safeCall(func() { n, err = dmx.Rewind() })
+			rec.ev(M{"ev": "rewind", "run": 3000 + sz, "n": int(n), "err": errClass(err), "panic": pn != nil})
+			drainData(dmx, bound, func() int { return 0 }, func(e M) {
+				e["run"] = 3000 + sz
+				rec.ev(e)
+			})
+		}
+	}
 	// (4) a unit of two sections whose second one is damaged (the first is delivered, the unit's error comes with a later call), Rewind in
 	// between: the error belongs to the pass before the Rewind
 	{
